@@ -41,12 +41,15 @@ Qed.
 Definition ctx_ok (c : fctx) : Prop :=
   0 <= f_cur c /\ 0 <= f_dictSize c /\
   (forall h, 0 <= get (f_tab c) h <= f_cur c) /\
-  (f_cur c <> 0 -> forall h, get (f_tab c) h < f_cur c).
+  (f_cur c <> 0 -> forall h, get (f_tab c) h < f_cur c) /\
+  (* a table that was never used (clearedTable) belongs to a context at offset 0; and a 16-bit
+     table is only kept below offset 64K *)
+  (f_tt c = 0 -> f_cur c = 0) /\ (f_tt c = 0 \/ f_tt c = 2 \/ f_tt c = 3).
 
 Lemma ctx_init_ok : ctx_ok ctx_init.
 Proof.
   unfold ctx_ok, ctx_init. cbn [f_cur f_dictSize f_tab].
-  repeat split; try lia; try (rewrite get_empty; lia).
+  repeat split; try lia; try (rewrite get_empty; lia). left; reflexivity.
 Qed.
 
 (* LZ4_compress_generic (noDict) on a context whose table is harmless for the chosen directives *)
@@ -54,26 +57,30 @@ Lemma compress_generic_nodict_sound c src srcSize cap od t small accel :
   src_ok src -> od <> FillOutput -> 1 <= accel -> 0 <= f_dictSize c -> 0 <= f_cur c ->
   tab_ok t CNoDict small (f_cur c) (f_dictSize c) 0 (f_cur c + 1) (f_tab c) ->
   (t = ByU16 -> srcSize < LZ4_64Klimit) ->
+  (t = ByU16 -> 0 <= srcSize ->
+   f_cur c + srcSize - MFLIMIT + 1 <= 65536 \/ (small = true /\ 65536 <= f_cur c - f_dictSize c)) ->
   let a := compress_generic_nodict c src srcSize cap od t small accel in
   (* the context after the call, successful or not *)
   ((srcSize <= 0 \/ srcSize > LZ4_MAX_INPUT_SIZE) -> a_ctx a = c) /\
   (0 < srcSize <= LZ4_MAX_INPUT_SIZE ->
    f_cur (a_ctx a) = f_cur c + srcSize /\ f_dictSize (a_ctx a) = f_dictSize c + srcSize /\
+   f_tt (a_ctx a) = tt_code t /\
    forall h, 0 <= get (f_tab (a_ctx a)) h < f_cur c + srcSize) /\
   (* a positive result decodes to the input *)
   (0 < a_ret a ->
    a_ret a = Z.of_nat (length (a_out a)) /\
    strict_valid [] (a_out a) = Some (load_list src 0 (Z.to_nat srcSize)) /\
-   (srcSize <> 0 -> a_consumed a = srcSize)).
+   (srcSize <> 0 -> a_consumed a = srcSize) /\
+   bytes_ok (a_out a) = true).
 Proof.
-  intros Hsrc Hod Hacc Hds Hcur Htab Hu16. unfold compress_generic_nodict.
+  intros Hsrc Hod Hacc Hds Hcur Htab Hu16 Hix. unfold compress_generic_nodict.
   destruct ((srcSize <? 0) || (srcSize >? LZ4_MAX_INPUT_SIZE)) eqn:E0; cbv zeta; cbn [a_ret a_ctx].
   { split; [reflexivity|]. split; [lia | lia]. }
   destruct (srcSize =? 0) eqn:E1.
   { assert (srcSize = 0) as -> by lia.
     destruct ((match od with NotLimited => false | _ => true end) && (cap <=? 0)); cbn [a_ret a_out a_consumed a_ctx];
       (split; [reflexivity|]; split; [lia|]); [lia|].
-    intros _. split; [reflexivity | split; [reflexivity | lia]]. }
+    intros _. split; [reflexivity | split; [reflexivity | split; [lia | reflexivity]]]. }
   assert (Ef : (match od with FillOutput => true | _ => false end) = false).
   { destruct od; try reflexivity. exfalso; apply Hod; reflexivity. }
   rewrite Ef. cbn [andb].
@@ -82,21 +89,28 @@ Proof.
   pose proof (compress_validated_factor vrd t od CNoDict small (f_cur c) (f_dictSize c) empty 0 srcSize cap accel
                 (fun a => Hsrc (a - f_cur c)) Hds Hod) as F.
   assert (Hdt : CNoDict = CUsingDictCtx -> forall h, get empty h + 0 < f_cur c /\
-                  good t CNoDict small (f_cur c) (f_dictSize c) (get empty h + 0)) by discriminate.
+                  good3 t CNoDict small (f_cur c) (f_dictSize c) (get empty h + 0)) by discriminate.
   assert (Hu : dist_active t = false -> f_cur c + srcSize - MFLIMIT - hist_lo CNoDict (f_cur c) (f_dictSize c) <= 65535).
   { unfold dist_active, hist_lo. destruct t; [discriminate|]. intros _.
     specialize (Hu16 eq_refl). unfold LZ4_64Klimit, MFLIMIT in *. lia. }
-  specialize (F 0 Hcur Hdt Hu Hacc (f_tab c) Hn Htab).
+  assert (Hidx : t = ByU16 -> mflimitPlusOne (f_cur c) srcSize <= 65536
+                              \/ (small = true /\ 65536 <= f_cur c - f_dictSize c /\ 0 <= 0)).
+  { intros Et. unfold mflimitPlusOne, iend. destruct (Hix Et Hn) as [A|[A B]]; [left; lia | right; repeat split; try assumption; lia]. }
+  specialize (F 0 Hcur Hdt Hu Hcur Hidx Hacc (f_tab c) Hn Htab).
   assert (HB : endB (f_cur c) srcSize = f_cur c + srcSize) by (unfold endB; lia).
   destruct (compress_validated vrd t od CNoDict small (f_cur c) (f_dictSize c) empty 0 srcSize cap accel (f_tab c))
     as [tab|ss last consumed tab hw] eqn:E; cbn [a_ret a_out a_consumed a_ctx f_cur f_dictSize f_tab]; cbn [RPost] in F.
-  - split; [intros; lia|]. split; [|lia]. intros _. split; [reflexivity|]. split; [reflexivity|].
+  - split; [intros; lia|]. split; [|lia]. intros _. split; [reflexivity|]. split; [reflexivity|]. split; [reflexivity|].
     intros h. rewrite HB in F. destruct (F h) as [? _]. lia.
   - destruct F as (Ft & Fe & F1 & F2 & F3 & F4).
     split; [intros; lia|]. split.
-    + intros _. split; [reflexivity|]. split; [reflexivity|].
+    + intros _. split; [reflexivity|]. split; [reflexivity|]. split; [reflexivity|].
       intros h. rewrite HB in Ft. destruct (Ft h) as [? _]. lia.
-    + intros _. split; [reflexivity|]. split; [|intros _; exact F1].
+    + intros _. split; [reflexivity|].
+      assert (Hby : bytes_ok (encode_block ss last) = true).
+      { apply encode_block_bytes; [eapply seqs_valid_wf; [|exact F2]; intros x; apply Hsrc|].
+        subst last. apply seg_bytes_ok. intros x. apply Hsrc. }
+      split; [|split; [intros _; exact F1 | exact Hby]].
       assert (R2 : strict_valid (seg vrd (hist_lo CNoDict (f_cur c) (f_dictSize c)) (f_cur c)) (encode_block ss last)
                    = Some (seg vrd (f_cur c) (f_cur c + srcSize))).
       { rewrite strict_valid_encode.
@@ -109,7 +123,7 @@ Qed.
 
 (* ---- LZ4_compress_fast_extState / LZ4_compress_fast / LZ4_compress_default ---- *)
 Lemma tab_ok_init t small : tab_ok t CNoDict small 0 0 0 (0 + 1) empty.
-Proof. intros h. rewrite get_empty. split; [lia|]. left. unfold hist_lo. lia. Qed.
+Proof. intros h. rewrite get_empty. split; [lia|]. left. left. unfold hist_lo. lia. Qed.
 
 Lemma ttype_for_u16 n : ttype_for n = ByU16 -> n < LZ4_64Klimit.
 Proof. unfold ttype_for. destruct (n <? LZ4_64Klimit) eqn:E; [lia | discriminate]. Qed.
@@ -126,7 +140,8 @@ Proof.
   destruct (cap >=? compressBound srcSize);
     (match goal with |- 0 < a_ret (compress_generic_nodict ?c ?s ?n ?cp ?od ?t ?sm ?ac) -> _ =>
        pose proof (compress_generic_nodict_sound c s n cp od t sm ac Hsrc ltac:(discriminate) Hacc
-                     ltac:(cbn; lia) ltac:(cbn; lia) (tab_ok_init t sm) (ttype_for_u16 n)) as H
+                     ltac:(cbn; lia) ltac:(cbn; lia) (tab_ok_init t sm) (ttype_for_u16 n)
+                     ltac:(intros Et _; left; pose proof (ttype_for_u16 _ Et); cbn; unfold LZ4_64Klimit, MFLIMIT in *; lia)) as H
      end; cbv zeta in H; intros Hr; destruct H as (_ & _ & H); destruct (H Hr) as (A & B & _); split; assumption).
 Qed.
 
@@ -136,39 +151,42 @@ Lemma prepareTable_cases c n t :
   let c1 := prepareTable c n t in
   ctx_ok c1 /\ f_dictSize c1 = 0 /\
   tab_ok t CNoDict (match t with ByU16 => negb (f_cur c1 =? 0) | ByU32 => false end)
-         (f_cur c1) 0 0 (f_cur c1 + 1) (f_tab c1).
+         (f_cur c1) 0 0 (f_cur c1 + 1) (f_tab c1) /\
+  (t = ByU16 -> 0 <= n -> f_cur c1 + n - MFLIMIT + 1 <= 65536 \/ f_cur c1 = 0).
 Proof.
-  intros (H1 & H2 & H3 & H4). unfold prepareTable. cbv zeta.
+  intros (H1 & H2 & H3 & H4 & H5 & H6). unfold prepareTable. cbv zeta.
   set (reset := negb (f_tt c =? tt_code t)
                 || match t with ByU16 => f_cur c + n >=? 65535 | ByU32 => false end
                 || match t with ByU32 => f_cur c >? 1073741824 | ByU16 => false end
                 || (n >=? 4096)).
-  assert (Kempty : forall tg, ctx_ok (mkF empty 0 tg 0)).
-  { intros tg. unfold ctx_ok. cbn [f_cur f_dictSize f_tab]. split; [lia|]. split; [lia|].
-    split; [intros h; rewrite get_empty; lia | intros; lia]. }
-  assert (Kgap : forall tg, f_cur c <> 0 -> ctx_ok (mkF (f_tab c) (f_cur c + 65536) tg 0)).
-  { intros tg Hc0. unfold ctx_ok. cbn [f_cur f_dictSize f_tab]. split; [lia|]. split; [lia|].
-    split; intros; specialize (H3 h); lia. }
-  assert (Ksame : forall tg, ctx_ok (mkF (f_tab c) (f_cur c) tg 0)).
-  { intros tg. unfold ctx_ok. cbn [f_cur f_dictSize f_tab]. split; [lia|]. split; [lia|]. split; assumption. }
+  assert (Kempty : ctx_ok (mkF empty 0 0 0)).
+  { unfold ctx_ok. cbn [f_cur f_dictSize f_tab f_tt]. split; [lia|]. split; [lia|].
+    split; [intros h; rewrite get_empty; lia|]. split; [intros; lia|]. split; [reflexivity | left; reflexivity]. }
+  assert (Kgap : f_cur c <> 0 -> ctx_ok (mkF (f_tab c) (f_cur c + 65536) (f_tt c) 0)).
+  { intros Hc0. unfold ctx_ok. cbn [f_cur f_dictSize f_tab f_tt]. split; [lia|]. split; [lia|].
+    split; [intros h; specialize (H3 h); lia|]. split; [intros _ h; specialize (H3 h); lia|].
+    split; [intros E; specialize (H5 E); lia | exact H6]. }
+  assert (Ksame : ctx_ok (mkF (f_tab c) (f_cur c) (f_tt c) 0)).
+  { unfold ctx_ok. cbn [f_cur f_dictSize f_tab f_tt]. split; [lia|]. split; [lia|].
+    split; [assumption|]. split; [assumption|]. split; assumption. }
   assert (Tgap : f_cur c <> 0 ->
                  tab_ok ByU32 CNoDict false (f_cur c + 65536) 0 0 (f_cur c + 65536 + 1) (f_tab c)).
   { intros Hc0 h. specialize (H3 h). split; [lia|].
-    right. right. split; [reflexivity|]. unfold LZ4_DISTANCE_MAX. lia. }
+    left. right. right. split; [reflexivity|]. unfold LZ4_DISTANCE_MAX. lia. }
   assert (Tzero : forall tt' sm, f_cur c = 0 -> tab_ok tt' CNoDict sm (f_cur c) 0 0 (f_cur c + 1) (f_tab c)).
-  { intros tt' sm Hc0 h. specialize (H3 h). split; [lia|]. left. unfold hist_lo. lia. }
+  { intros tt' sm Hc0 h. specialize (H3 h). split; [lia|]. left. left. unfold hist_lo. lia. }
   assert (Tsmall : f_cur c <> 0 -> tab_ok ByU16 CNoDict true (f_cur c) 0 0 (f_cur c + 1) (f_tab c)).
   { intros Hc0 h. specialize (H3 h). specialize (H4 Hc0 h). split; [lia|].
-    right. left. split; [reflexivity | lia]. }
+    left. right. left. split; [reflexivity | lia]. }
   assert (Tempty : forall tt' sm, tab_ok tt' CNoDict sm 0 0 0 (0 + 1) empty).
-  { intros tt' sm h. rewrite get_empty. split; [lia|]. left. unfold hist_lo. lia. }
+  { intros tt' sm h. rewrite get_empty. split; [lia|]. left. left. unfold hist_lo. lia. }
   destruct (negb (f_tt c =? 0) && reset) eqn:Er0.
   - (* table cleared *)
     replace (if negb (f_tt c =? 0) then if reset then mkF empty 0 0 (f_dictSize c) else c else c)
       with (mkF empty 0 0 (f_dictSize c))
       by (destruct (negb (f_tt c =? 0)); [destruct reset; [reflexivity | discriminate] | discriminate]).
     cbn [f_cur f_tab f_tt f_dictSize]. cbn [Z.eqb negb andb].
-    split; [apply Kempty|]. split; [reflexivity|]. destruct t; apply Tempty.
+    split; [apply Kempty|]. split; [reflexivity|]. split; [destruct t; apply Tempty | intros; right; reflexivity].
   - (* table kept *)
     replace (if negb (f_tt c =? 0) then if reset then mkF empty 0 0 (f_dictSize c) else c else c) with c
       by (destruct (negb (f_tt c =? 0)); [destruct reset; [discriminate | reflexivity] | reflexivity]).
@@ -176,14 +194,17 @@ Proof.
     + (* ByU32: 64 KB gap *)
       destruct (f_cur c =? 0) eqn:E0; cbn [negb andb f_cur f_tab f_tt f_dictSize].
       * assert (Hz : f_cur c = 0) by lia.
-        split; [apply Ksame|]. split; [reflexivity|]. apply Tzero; assumption.
-      * split; [apply Kgap; lia|]. split; [reflexivity|]. apply Tgap. lia.
+        split; [apply Ksame|]. split; [reflexivity|]. split; [apply Tzero; assumption | discriminate].
+      * split; [apply Kgap; lia|]. split; [reflexivity|]. split; [apply Tgap; lia | discriminate].
     + (* ByU16: dictSmall when the offset is not 0 *)
       rewrite andb_false_r. cbn [f_cur f_tab f_tt f_dictSize].
-      split; [apply Ksame|]. split; [reflexivity|].
-      destruct (f_cur c =? 0) eqn:E0; cbn [negb].
-      * assert (Hz : f_cur c = 0) by lia. apply Tzero; assumption.
-      * apply Tsmall. lia.
+      split; [apply Ksame|]. split; [reflexivity|]. split.
+      * destruct (f_cur c =? 0) eqn:E0; cbn [negb].
+        -- assert (Hz : f_cur c = 0) by lia. apply Tzero; assumption.
+        -- apply Tsmall. lia.
+      * intros _ Hn0.
+        destruct (f_tt c =? 0) eqn:Et; [right; apply H5; lia|]. cbn [negb andb] in Er0.
+        left. unfold reset in Er0. unfold MFLIMIT. lia.
 Qed.
 
 Theorem compress_fast_extState_fastReset_sound c src srcSize cap accel :
@@ -197,29 +218,38 @@ Proof.
   intros Hsrc Hc. unfold compress_fast_extState_fastReset. cbv zeta.
   pose proof (clamp_accel_ge accel) as Hacc.
   pose proof (prepareTable_cases c srcSize (ttype_for srcSize) Hc) as P. cbv zeta in P.
-  destruct P as (P0 & P1 & P3).
+  destruct P as (P0 & P1 & P3 & P4).
   set (c1 := prepareTable c srcSize (ttype_for srcSize)) in *.
   assert (P3' : tab_ok (ttype_for srcSize) CNoDict
                   (match ttype_for srcSize with ByU16 => negb (f_cur c1 =? 0) | ByU32 => false end)
                   (f_cur c1) (f_dictSize c1) 0 (f_cur c1 + 1) (f_tab c1)) by (rewrite P1; exact P3).
-  destruct P0 as (Q1 & Q2 & Q3 & Q4).
-  assert (K : forall a : ares,
+  destruct P0 as (Q1 & Q2 & Q3 & Q4 & Q5 & Q6).
+  assert (K : forall (a : ares) (t : ttype),
            ((srcSize <= 0 \/ srcSize > LZ4_MAX_INPUT_SIZE) -> a_ctx a = c1) ->
            (0 < srcSize <= LZ4_MAX_INPUT_SIZE ->
             f_cur (a_ctx a) = f_cur c1 + srcSize /\ f_dictSize (a_ctx a) = f_dictSize c1 + srcSize /\
+            f_tt (a_ctx a) = tt_code t /\
             forall h, 0 <= get (f_tab (a_ctx a)) h < f_cur c1 + srcSize) ->
            ctx_ok (a_ctx a)).
-  { intros a A1 A2.
-    destruct (Z_le_gt_dec srcSize 0) as [Hle|Hgt]; [rewrite A1 by lia; exact (conj Q1 (conj Q2 (conj Q3 Q4)))|].
-    destruct (Z_gt_le_dec srcSize LZ4_MAX_INPUT_SIZE) as [Hg|Hl]; [rewrite A1 by lia; exact (conj Q1 (conj Q2 (conj Q3 Q4)))|].
-    destruct (A2 ltac:(lia)) as (B1 & B2 & B3).
-    unfold ctx_ok. rewrite B1, B2. split; [lia|]. split; [lia|]. split; intros; specialize (B3 h); lia. }
+  { intros a t A1 A2.
+    destruct (Z_le_gt_dec srcSize 0) as [Hle|Hgt]; [rewrite A1 by lia; exact (conj Q1 (conj Q2 (conj Q3 (conj Q4 (conj Q5 Q6)))))|].
+    destruct (Z_gt_le_dec srcSize LZ4_MAX_INPUT_SIZE) as [Hg|Hl]; [rewrite A1 by lia; exact (conj Q1 (conj Q2 (conj Q3 (conj Q4 (conj Q5 Q6)))))|].
+    destruct (A2 ltac:(lia)) as (B1 & B2 & B4 & B3).
+    unfold ctx_ok. rewrite B1, B2, B4. split; [lia|]. split; [lia|].
+    split; [intros; specialize (B3 h); lia|]. split; [intros; specialize (B3 h); lia|].
+    split; [destruct t; cbn; lia | destruct t; cbn; auto]. }
+  assert (Hix : ttype_for srcSize = ByU16 -> 0 <= srcSize ->
+                f_cur c1 + srcSize - MFLIMIT + 1 <= 65536
+                \/ (match ttype_for srcSize with ByU16 => negb (f_cur c1 =? 0) | ByU32 => false end = true
+                    /\ 65536 <= f_cur c1 - f_dictSize c1)).
+  { intros Et Hn0. left. pose proof (ttype_for_u16 _ Et) as Hlt.
+    destruct (P4 Et Hn0) as [A|A]; [exact A|]. unfold LZ4_64Klimit, MFLIMIT in *. lia. }
   destruct (cap >=? compressBound srcSize);
     (match goal with |- ctx_ok (a_ctx (compress_generic_nodict ?c ?s ?n ?cp ?od ?t ?sm ?ac)) /\ _ =>
        pose proof (compress_generic_nodict_sound c s n cp od t sm ac Hsrc ltac:(discriminate) Hacc
-                     ltac:(lia) Q1 P3' (ttype_for_u16 n)) as H
+                     ltac:(lia) Q1 P3' (ttype_for_u16 n) Hix) as H
      end; cbv zeta in H; destruct H as (A1 & A2 & A3);
-     split; [apply K; assumption | intros Hr; destruct (A3 Hr) as (A & B & _); split; assumption]).
+     split; [eapply K; eassumption | intros Hr; destruct (A3 Hr) as (A & B & _); split; assumption]).
 Qed.
 
 (* ---- any history of fast-reset one-shot compressions on one context ---- *)
